@@ -94,6 +94,7 @@ func c11(c *Ctx) {
 	r.Explanation = "Decides the code shape of authentication: (H1) api.session returns success only after the X-Session-Auth header was read, found non-empty, the stored secret of exactly the parsed session id was fetched without error and compared equal, and it returns that same id; the secret is read nowhere else; (H2) in every function reachable from DispatchPublic a session id that reaches IRC state or a proposal is either the function's robust.Id parameter (then every call site passes a gate-derived id on the gate's nil-error edge) or the gate's own result on its nil-error edge; (H3) every message encoded to a GetMessages reader passed the InterestingFor[<authenticated id>] filter; (H4) DispatchPrivateWithoutAuth is reached only on the edge where BasicAuth succeeded with user robustirc and the network password; (H5) the world is closed: handler-shaped methods are called only from the dispatchers, never taken as values, private handlers are unreachable from DispatchPublic, and only the two dispatchers are registered. Not decided: that the stored secret is the one handed out (value flow through raft), timing side channels."
 	r.Rules = []string{"C11.H1 the gate", "C11.H2 session sinks behind the gate", "C11.H3 stream filter", "C11.H4 admin gate", "C11.H5 closed world of routes"}
 
+	c.c11DefaultMux()
 	sess := c.MustFunc("api.(*HTTP).session")
 	sop := c.MustFunc("api.(*HTTP).sessionOrProxy")
 	pub := c.MustFunc("api.(*HTTP).DispatchPublic")
@@ -734,4 +735,95 @@ func eqPairs(info *types.Info, root ast.Node, f cfgx.Fact) [][2]ast.Expr {
 		return [][2]ast.Expr{{be.X, be.Y}}
 	}
 	return nil
+}
+
+// c11DefaultMux (H5): routes registered as an import side effect. Every package in the program's import closure whose
+// init (or package-level code) registers handlers on http.DefaultServeMux — net/http/pprof, expvar — adds routes that the
+// two dispatchers never see. Therefore: the server that main starts does not serve the default mux, the only registrations
+// on its own mux are the two dispatchers (checked in the main loop of H5), and the module touches http.DefaultServeMux
+// only inside DispatchPrivateWithoutAuth, i.e. behind the password.
+func (c *Ctx) c11DefaultMux() {
+	r := c.R
+	mainFn := c.MustFunc("main.main")
+	privNA := c.P.Func("api.(*HTTP).DispatchPrivateWithoutAuth")
+	if mainFn == nil {
+		return
+	}
+	// side-effect registrars in the import closure
+	var registrars []string
+	for path, pkg := range c.P.All {
+		if strings.HasPrefix(path, load.ModPath) {
+			continue
+		}
+		found := false
+		for _, f := range pkg.Syntax {
+			for _, d := range f.Decls {
+				fd, ok := d.(*ast.FuncDecl)
+				if !ok || fd.Name.Name != "init" || fd.Recv != nil || fd.Body == nil {
+					continue
+				}
+				ast.Inspect(fd.Body, func(n ast.Node) bool {
+					call, ok := n.(*ast.CallExpr)
+					if !ok {
+						return true
+					}
+					if fn := astx.Callee(pkg.TypesInfo, call); fn != nil && fn.Pkg() != nil && fn.Pkg().Path() == "net/http" && (fn.FullName() == "net/http.HandleFunc" || fn.FullName() == "net/http.Handle") {
+						found = true
+					}
+					return true
+				})
+			}
+		}
+		if found {
+			registrars = append(registrars, path)
+		}
+	}
+	sort.Strings(registrars)
+	info := mainFn.Info()
+	// the server literal(s) in main
+	nSrv := 0
+	for _, cl := range compositeLitsOf(info, mainFn.Body(), "net/http", "Server") {
+		nSrv++
+		h := litField(cl, "Handler")
+		okOwn := false
+		if h != nil && !isNilIdent(info, h) && !refersTo(info, h, "net/http", "DefaultServeMux") {
+			// a mux created in main
+			if d := uniqueDef(info, mainFn.Node(), h); d != nil {
+				if call, ok := ast.Unparen(d).(*ast.CallExpr); ok {
+					if fn := astx.Callee(info, call); fn != nil && fn.FullName() == "net/http.NewServeMux" {
+						okOwn = true
+					}
+				}
+			}
+		}
+		if len(registrars) == 0 {
+			r.Ok("C11.H5", mainFn.Name(), "no dependency registers routes behind the dispatchers' back", c.P.Pos(cl.Pos()), "no init() in the import closure calls http.Handle/HandleFunc")
+			continue
+		}
+		r.Check(okOwn, "C11.H5", mainFn.Name(), "the server serves its own mux, not http.DefaultServeMux", c.P.Pos(cl.Pos()), "http.Server{Handler: <http.NewServeMux()>}; side-effect registrars in the import closure: "+strings.Join(registrars, ", "),
+			"main serves http.DefaultServeMux while "+strings.Join(registrars, ", ")+" register(s) handlers on it as an import side effect: those routes (e.g. /debug/pprof/cmdline, which shows the command line including -network_password) answer without the network password")
+	}
+	r.Check(nSrv >= 1, "C11.H5", mainFn.Name(), "http.Server literal found", c.P.Pos(mainFn.Node().Pos()), itoa(nSrv), "main no longer builds an http.Server literal: how the mux is served was not recognised")
+	// registrations go to that mux, not to the package-level default
+	for _, call := range astx.Calls(mainFn.Body(), true) {
+		if fn := astx.Callee(info, call); fn != nil && (fn.FullName() == "net/http.HandleFunc" || fn.FullName() == "net/http.Handle") && len(registrars) > 0 {
+			r.Fail("C11.H5", mainFn.Name(), "registers "+astx.Str(call.Args[0])+" on http.DefaultServeMux", c.P.Pos(call.Pos()), "routes are registered on the default mux, which also carries the handlers of "+strings.Join(registrars, ", "))
+		}
+	}
+	// the default mux is only ever served from behind the password
+	for _, fi := range c.P.AllFuncs {
+		if fi.Body() == nil || !strings.HasPrefix(fi.Pkg.PkgPath, load.ModPath) {
+			continue
+		}
+		fin := fi.Info()
+		ast.Inspect(fi.Body(), func(n ast.Node) bool {
+			se, ok := n.(*ast.SelectorExpr)
+			if !ok || !refersTo(fin, se, "net/http", "DefaultServeMux") {
+				return true
+			}
+			r.Check(fi == privNA, "C11.H5", fi.Name(), "uses http.DefaultServeMux", c.P.Pos(se.Pos()), "only inside DispatchPrivateWithoutAuth (behind the network password)",
+				"http.DefaultServeMux (which carries handlers registered by imported packages) is served from code that is not behind the admin gate")
+			return false
+		})
+	}
 }
